@@ -57,6 +57,8 @@ def cases(tier, seed):
             sp["crop"]["harvest"] = sp["crop"]["planting"]
         if i % 7 == 3:
             sp["weather"].setdefault("params", {}).update(pwet=0.0, pstorm=0.0)
+        if common.crop_catalogue()[sp["crop"]["name"]]["CalendarType"] == 2 and i % 2 == 0:
+            sp["weather"]["whole_degrees"] = True      # exact hits of the thermal thresholds
         c = {"spec": sp, "cls": f"{pre}/{shape}/{int(off)}"}
         if i % 3 == 2:
             c["stepping"] = int(rng.integers(0, 2 ** 31 - 1))
